@@ -37,7 +37,7 @@ EXHAUSTIVE = True
 def bounds(tier):
     if tier == "quick":
         return {"max_ref_segments": 3, "max_steps": 2, "bgzf_layout_shards": 16, "bgzf_max_cuts": 2}
-    return {"max_ref_segments": 3, "max_steps": 3, "bgzf_layout_shards": 40, "bgzf_max_cuts": 2}
+    return {"max_ref_segments": 4, "max_steps": 3, "bgzf_layout_shards": 120, "bgzf_max_cuts": 3}
 
 
 def plan(tier, seed):
